@@ -247,4 +247,13 @@ def r3_fixpoints(ctx):
     ctx.need('R3.fix-point', 2, 'con_out += EOL, att_in padding')
 
 
-RULES = [('R1.bracket', r1_bracket), ('R2.completeness', r2_completeness), ('R3.fix-point', r3_fixpoints), ('R4.keys', r4_keys)]
+def r5_handoff(ctx):
+    """the operating point handed from one amplifier to the next must not depend on whether a value was optimised in
+    this run or read back from an exported design (shared with C09-R3/R4): the returned (dp, voa), the stored gain and
+    offsets are the documented ones"""
+    from .c09 import r3_saturation, r4_voa
+    r3_saturation(ctx)
+    r4_voa(ctx)
+
+
+RULES = [('R5.handoff', r5_handoff), ('R1.bracket', r1_bracket), ('R2.completeness', r2_completeness), ('R3.fix-point', r3_fixpoints), ('R4.keys', r4_keys)]
